@@ -25,13 +25,14 @@ COQ_TARGETS = ['nv/NvTrace.vo', 'nv/NvTraceProofs.vo']
 DETAIL = {1: 'only one of model and reader panicked', 2: 'header differs',
           3: 'thread-block / warp skeleton differs'}
 FIELDS = ['', 'threadblockID', 'warpID', 'PC', 'Mask', 'DestNum', 'DestRegs', 'OpCode', 'SrcNum', 'SrcRegs',
-          'MemWidth', 'AddressCompress', 'MemAddress', 'MemAddressSuffix1', 'MemAddressSuffix2', 'Immediate',
-          'number of instructions']
+          'MemWidth', 'AddressCompress', 'MemAddress', 'MemAddresses', 'MemAddressSuffix1', 'MemAddressSuffix2',
+          'Immediate', 'number of instructions']
 
-REG_TABLE = set(range(32)) | {255}
+REG_TABLE = set(range(256))          # R0..R254 and the zero register R255
 
-KNOWN_TEXT = ('tracereader drops serialised fields: OpCode is never filled (nil), MemAddress is always 0 for '
-              '0x-prefixed addresses (the verb %x stops at the "x"), uncompressed address lists (mode 0) are not kept')
+# nvidiaconfig.opcodeTable: mnemonic -> (OpCodeType, VariableType); everything
+# else is (OpCodeError, VariableError) = (1, 1)
+OPCODE_TABLE = {'IMAD.MOV.U32': (2, 2)}
 
 
 def detail_text(d):
@@ -55,7 +56,9 @@ def valid_inst(i):
     if m is not None:
         if m['width'] == 0 or not fits(32, m['width']):
             return False
-        if m['mode'] == 0 and not m.get('addrs'):
+        if m['mode'] == 0 and not all(0 <= a < 2 ** 63 for a in (m.get('addrs') or [])):
+            return False
+        if m['mode'] in (1, 2) and not 0 <= m['base'] < 2 ** 63:
             return False
         if m['mode'] == 1 and not fits(32, m['stride']):
             return False
@@ -114,10 +117,10 @@ def _regs_ok(parsed, want):
 
 
 def monitor(case):
-    """Sound monitor of the property on one observed run.  Returns None,
-    ('violation', text) when the reader panicked on a valid file or a field it
-    claims to fill differs from what was serialised, or ('known', text) when
-    only the known-dropped fields differ."""
+    """Sound monitor of the property on one observed run.  Returns None or
+    ('violation', text) when the reader panicked on a valid file or any field
+    of the parsed trace (opcode, addresses and uncompressed address lists
+    included) differs from what was serialised."""
     k = case['kernel']
     if not valid_kernel(k):
         return None
@@ -136,7 +139,6 @@ def monitor(case):
     blocks = k.get('blocks') or []
     if len(p['blocks']) != len(blocks):
         return ('violation', 'serialised %d thread blocks, parsed %d' % (len(blocks), len(p['blocks'])))
-    known = []
     for bi, (b, pb) in enumerate(zip(blocks, p['blocks'])):
         if pb['id'] != b['id']:
             return ('violation', 'block %d: id %r parsed as %r' % (bi, b['id'], pb['id']))
@@ -171,25 +173,19 @@ def monitor(case):
                     return ('violation', '%s: dest regs %r parsed as %r' % (at, i.get('dests'), q['dests']))
                 if not _regs_ok(q['srcs'], i.get('srcs') or []):
                     return ('violation', '%s: src regs %r parsed as %r' % (at, i.get('srcs'), q['srcs']))
-                # fields the reader is known to drop
-                if q['op'] is None:
-                    known.append('%s: OpCode nil (serialised %s)' % (at, i['op']))
-                elif q['op'] != i['op']:
+                if q['op'] != i['op']:
                     return ('violation', '%s: opcode %r parsed as %r' % (at, i['op'], q['op']))
-                if m is None:
-                    if q['memaddr'] != 0:
-                        return ('violation', '%s: MemAddress %r without memory part' % (at, q['memaddr']))
-                elif mode == 0:
-                    known.append('%s: %d uncompressed addresses not kept' % (at, len(m['addrs'])))
-                    if q['memaddr'] not in (0, m['addrs'][0]):
-                        return ('violation', '%s: MemAddress %r is no serialised address' % (at, q['memaddr']))
+                if (q.get('optype'), q.get('vartype')) != OPCODE_TABLE.get(i['op'], (1, 1)):
+                    return ('violation', '%s: opcode %r got types %r/%r' % (at, i['op'], q.get('optype'), q.get('vartype')))
+                if m is None or mode != 0:
+                    addr, addrs = (m['base'] if m else 0), []
                 else:
-                    if q['memaddr'] != m['base']:
-                        if q['memaddr'] != 0:
-                            return ('violation', '%s: base address %r parsed as %r' % (at, m['base'], q['memaddr']))
-                        known.append('%s: MemAddress 0 (serialised 0x%x)' % (at, m['base']))
-    if known:
-        return ('known', '%s; %d dropped values, first: %s' % (KNOWN_TEXT, len(known), known[0]))
+                    addrs = list(m.get('addrs') or [])
+                    addr = addrs[0] if addrs else 0
+                if q['memaddr'] != addr:
+                    return ('violation', '%s: address 0x%x parsed as MemAddress %r' % (at, addr, q['memaddr']))
+                if q['addrs'] != addrs:
+                    return ('violation', '%s: uncompressed addresses %r parsed as %r' % (at, addrs, q['addrs']))
     return None
 
 
